@@ -57,7 +57,7 @@ def fstr(x):
     return repr(float(x))
 
 
-def gen_config(rng, d, N, K=1, T=1, cell="orth", ppp=None, Lrange=(3.0, 5.0), spread=None, minsep=0.0):
+def gen_config(rng, d, N, K=1, T=1, cell="orth", ppp=None, Lrange=(3.0, 5.0), spread=None, minsep=0.0, shear=False):
     """decimal-grid configuration; cell ∈ orth | cubic | tri ; open clusters have ppp = 0.  Box lengths have three
     decimals with an odd last digit, positions three decimals: no pair can sit exactly on a half-cell tie of an
     orthogonal cell.  minsep: minimum (minimum-image) separation enforced in frame 0 by rejection."""
@@ -93,8 +93,20 @@ def gen_config(rng, d, N, K=1, T=1, cell="orth", ppp=None, Lrange=(3.0, 5.0), sp
     pos = []
     for t in range(T):
         pos.append([[f"{base[i][k] + (0 if t == 0 else rng.uniform(-0.25, 0.25) * t ** 0.5):.3f}" for k in range(d)] for i in range(N)])
-    return {"d": d, "N": N, "T": T, "L": L, "H": H, "ppp": ppp if ppp is not None else [1] * d, "types": types, "pos": pos,
-            "src": f"gen:{cell}"}
+    cfg = {"d": d, "N": N, "T": T, "L": L, "H": H, "ppp": ppp if ppp is not None else [1] * d, "types": types, "pos": pos,
+           "src": f"gen:{cell}"}
+    if shear and cell == "tri" and T >= 2:
+        # a sheared trajectory: the same box lengths, another tilt in every frame (cell of frame 0 = H)
+        Hs = [H]
+        for t in range(1, T):
+            Ht = [row[:] for row in H]
+            for i in range(d):
+                for j in range(i):
+                    Ht[i][j] = common.dec(rng, -0.8, 0.8, nd=2)
+            Hs.append(Ht)
+        cfg["Hs"] = Hs
+        cfg["src"] = "gen:tri-sheared"
+    return cfg
 
 
 _SAMPLE_CACHE = {}
@@ -140,9 +152,11 @@ def sample_config(name, ndim, nmax=None, frames=1, center_cluster=None):
 
 
 def arrays(cfg):
+    H = np.array([[float(x) for x in row] for row in cfg["H"]])
+    Hs = np.array([[[float(x) for x in row] for row in Ht] for Ht in cfg["Hs"]]) if "Hs" in cfg else np.array([H] * cfg["T"])
     return {"d": cfg["d"], "N": cfg["N"], "T": cfg["T"],
             "L": np.array([float(x) for x in cfg["L"]]),
-            "H": np.array([[float(x) for x in row] for row in cfg["H"]]),
+            "H": H, "Hs": Hs,
             "ppp": np.array([int(x) for x in cfg["ppp"]]),
             "types": np.array(cfg["types"], dtype=int),
             "pos": np.array([[[float(x) for x in row] for row in fr] for fr in cfg["pos"]], dtype=float).reshape(cfg["T"], cfg["N"], cfg["d"])}
@@ -155,7 +169,7 @@ def snapshots_of(A, steps=None):
     for t in range(A["T"]):
         snaps.append(SingleSnapshot(timestep=(steps[t] if steps else t), nparticle=A["N"], particle_type=A["types"].copy(),
                                     positions=A["pos"][t].copy(), boxlength=A["L"].copy(),
-                                    boxbounds=np.column_stack((np.zeros(d), A["L"])), realbounds=None, hmatrix=A["H"].copy()))
+                                    boxbounds=np.column_stack((np.zeros(d), A["L"])), realbounds=None, hmatrix=A["Hs"][t].copy()))
     return Snapshots(nsnapshots=A["T"], snapshots=snaps)
 
 
@@ -228,7 +242,7 @@ def apply_tf(A, tf):
         B["pos"] = A["pos"] + np.array([float(x) for x in tf["c"]])[None, None, :]
     elif k == "lshift":
         m = np.array(tf["m"], dtype=float)                      # [T, N, d]
-        B["pos"] = A["pos"] + (m * A["ppp"][None, None, :]) @ A["H"]
+        B["pos"] = A["pos"] + np.einsum("tna,tab->tnb", m * A["ppp"][None, None, :], A["Hs"])     # each frame's own cell
     elif k == "relabel":
         s = np.array(tf["sigma"])
         B["pos"] = A["pos"][:, s, :]
@@ -244,6 +258,7 @@ def apply_tf(A, tf):
         B["pos"] = A["pos"][:, :, p]
         B["L"] = A["L"][p]
         B["H"] = A["H"][p][:, p]
+        B["Hs"] = A["Hs"][:, p][:, :, p]
         B["ppp"] = A["ppp"][p]
     elif k == "rot":
         R = np.array([[float(Fraction(x)) for x in row] for row in tf["R"]])
@@ -253,6 +268,7 @@ def apply_tf(A, tf):
         B["pos"] = A["pos"] * s
         B["L"] = A["L"] * s
         B["H"] = A["H"] * s
+        B["Hs"] = A["Hs"] * s
     return B
 
 
@@ -314,7 +330,7 @@ def check_against_model(cfg, tf, B, outs, nlim=60):
 
 def pair_geom(A, t):
     """independent minimum-image pair table: returns (D [N,N] distances, tie margin of the rint arguments)"""
-    pos, H, ppp = A["pos"][t], A["H"], A["ppp"]
+    pos, H, ppp = A["pos"][t], A["Hs"][t], A["ppp"]
     Hinv = np.linalg.inv(H)
     diff = pos[None, :, :] - pos[:, None, :]              # diff[i, j] = r_j - r_i
     f = diff @ Hinv
@@ -945,7 +961,7 @@ def plan(run):
     for _ in range(ncfg):
         # g(r): 2D/3D, orthogonal and triclinic, 1-4 species, 1-2 frames
         for d, cell, K in ([(2, "tri", 2), (3, "orth", 3)] if quick else [(2, "orth", 1), (2, "tri", 2), (3, "orth", 3), (3, "tri", 4), (3, "cubic", 2)]):
-            cfg = gen_config(rng, d, rng.randint(10, 16), K=K, T=rng.choice([1, 2]), cell=cell)
+            cfg = gen_config(rng, d, rng.randint(10, 16), K=K, T=(rng.choice([2, 3]) if cell == "tri" else rng.choice([1, 2])), cell=cell, shear=True)
             add("gr", cfg, {"rdelta": rng.choice(["0.113", "0.207", "0.151"])}, reps=reps)
         # S(q): orthogonal cells
         for d, cell, K in ([(2, "orth", 2), (3, "orth", 3)] if quick else [(2, "orth", 1), (2, "orth", 2), (3, "orth", 3), (3, "cubic", 2)]):
